@@ -182,7 +182,7 @@ class TypeNode:
 
     type: typing.Any
     """The type annotation for this node."""
-    unwrapped: typing.Any | None = None
+    unwrapped: typing.Any = constants.empty
     """The unwrapped type annotation for this node."""
     var: str | None = None
     """The variable or parameter name associated to the type annotation for this node."""
@@ -190,7 +190,8 @@ class TypeNode:
     """Whether this type annotation is cyclic."""
 
     def __post_init__(self):
-        if self.unwrapped is None:
+        # `None` is a valid unwrapped type (e.g., an alias or NewType of `None`).
+        if self.unwrapped is constants.empty:
             self.unwrapped = self.type
 
 
